@@ -121,10 +121,27 @@ func parseGuard(g string) (guardSpec, error) {
 func guardClauseResults(eng *vc.Engine, fname string) []StructResult {
 	spec := eng.Spec.Funcs[fname]
 	fn := eng.Func(fname)
-	if spec == nil || fn == nil || len(spec.Guards) == 0 {
+	if spec == nil || fn == nil || (len(spec.Guards) == 0 && len(spec.Orders) == 0) {
 		return nil
 	}
 	var out []StructResult
+	for _, oc := range spec.Orders {
+		name := fmt.Sprintf("%s#order:%s before %s", fname, oc.A, oc.B)
+		as, bs := anchorSites(fn, oc.A), anchorSites(fn, oc.B)
+		if len(as) == 0 || len(bs) == 0 {
+			out = append(out, StructResult{Name: name + ":sites", Desc: "the instructions named by the order clause exist", OK: false, Status: "unbound", Detail: fmt.Sprintf("%d / %d sites found (code shape changed)", len(as), len(bs))})
+			continue
+		}
+		ok, why := true, ""
+		for _, b := range bs {
+			for _, a := range as {
+				if instrReachableFromInstr(b, a) {
+					ok, why = false, fmt.Sprintf("%s is reachable after %s", oc.A, oc.B)
+				}
+			}
+		}
+		out = append(out, StructResult{Name: name, Desc: "no " + oc.A + " is executed after a " + oc.B, OK: ok, Detail: why})
+	}
 	for _, gc := range spec.Guards {
 		var groups [][]guardSpec
 		bad := ""
@@ -159,6 +176,32 @@ func guardClauseResults(eng *vc.Engine, fname string) []StructResult {
 		for i, s := range sites {
 			ok, why := checkGuarded(fn, s.Block(), groups)
 			out = append(out, StructResult{Name: fmt.Sprintf("%s@%d", name, i+1), Desc: gc.Effect + " only on paths where " + strings.Join(gc.Guards, " and "), OK: ok, Detail: why})
+		}
+	}
+	return out
+}
+
+// anchorSites: the non-deferred instructions of fn matching an anchor
+// ("call:Remove#2" = the second one in block order).
+func anchorSites(fn *ssa.Function, anchor string) []ssa.Instruction {
+	occ := 0
+	if j := strings.LastIndex(anchor, "#"); j > 0 {
+		fmt.Sscanf(anchor[j+1:], "%d", &occ)
+		anchor = anchor[:j]
+	}
+	var out []ssa.Instruction
+	n := 0
+	for _, b := range fn.Blocks {
+		for _, ins := range b.Instrs {
+			if _, isDefer := ins.(*ssa.Defer); isDefer {
+				continue
+			}
+			if vc.AnchorMatches(ins, anchor) {
+				n++
+				if occ == 0 || occ == n {
+					out = append(out, ins)
+				}
+			}
 		}
 	}
 	return out
